@@ -23,7 +23,7 @@ HISTORIES = [
 ]
 
 
-async def _session(loop, backend, mlsx, hist, mtimes):
+async def _session(loop, backend, mlsx, hist, mtimes, prelude=None):
     spy_times = {}
     wd = W.World(loop, [W.UserSpec(None, None)], backend=backend)
     await wd.start()
@@ -48,7 +48,25 @@ async def _session(loop, backend, mlsx, hist, mtimes):
             wd.server.commands_mapping.pop("mlsd")
         client = aioftp.Client()
         await client.connect("127.0.0.1", wd.port)
+        if prelude == "list-before-login":
+            # the same client object is used too early once: the refusal must not colour what it learns afterwards
+            try:
+                await client.list("/")
+                fails.append("list() before login() was served")
+            except aioftp.StatusCodeError:
+                pass
         await client.login()
+        if prelude == "list-of-missing-directory":
+            for missing in ("/nope", "/d/nope/deeper"):
+                try:
+                    await client.list(missing)
+                except aioftp.StatusCodeError:
+                    pass
+        elif prelude == "stat-of-missing-path":
+            try:
+                await client.stat("/nope")
+            except aioftp.StatusCodeError:
+                pass
         for h in hist:
             if h[0] == "up":
                 async with client.upload_stream(h[1], offset=h[3]) as st:
@@ -109,10 +127,98 @@ async def _session(loop, backend, mlsx, hist, mtimes):
     return fails
 
 
+async def _special_session(loop, backend):
+    """a served directory that holds more than regular files and directories (a FIFO, a unix socket, links): every
+    entry is reported with the type the backend gives it - file iff is_file(), dir iff is_dir() - by MLSD, by MLST
+    and by the LIST flavour alike"""
+    import os
+    import socket as _socket
+
+    wd = W.World(loop, [W.UserSpec(None, None)], backend=backend)
+    await wd.start()
+    fails = []
+    socks = []
+    try:
+        base = wd.tmpdir
+        os.mkdir(os.path.join(base, "dir"))
+        with open(os.path.join(base, "file.txt"), "wb") as f:
+            f.write(b"12345")
+        os.mkfifo(os.path.join(base, "pipe"))
+        sk = _socket.socket(_socket.AF_UNIX)
+        sk.bind(os.path.join(base, "daemon.sock"))
+        socks.append(sk)
+        os.symlink("file.txt", os.path.join(base, "link-to-file"))
+        os.symlink("dir", os.path.join(base, "link-to-dir"))
+        truth = {}
+        for name in os.listdir(base):
+            p = os.path.join(base, name)
+            truth[name] = "dir" if os.path.isdir(p) else "file" if os.path.isfile(p) else "unknown"
+        client = aioftp.Client()
+        await client.connect("127.0.0.1", wd.port)
+        await client.login()
+        for flavour in ("MLSD", "LIST"):
+            got = {}
+            for path, info in await client.list("/", raw_command=flavour):
+                got[path.name] = info.get("type")
+            if set(got) != set(truth):
+                fails.append("%s lists %s, the directory holds %s" % (flavour, sorted(got), sorted(truth)))
+                continue
+            for name, typ in sorted(truth.items()):
+                if flavour == "LIST" and name.startswith("link-"):
+                    continue  # the LIST line of a link carries the type of the target only through the `-> x/` convention
+                if got[name] != typ:
+                    fails.append("%s: %s listed as type %r, the backend says %r" % (flavour, name, got[name], typ))
+        for name, typ in sorted(truth.items()):
+            info = await client.stat("/" + name)
+            if info.get("type") != typ:
+                fails.append("MLST: %s reported as type %r, the backend says %r" % (name, info.get("type"), typ))
+        try:
+            await client.quit()
+        except Exception:
+            client.close()
+        await loop.settle()
+    finally:
+        for sk in socks:
+            sk.close()
+        try:
+            await wd.stop()
+        except Exception:
+            wd.finish()
+    return fails
+
+
+PRELUDES = [None, "list-before-login", "list-of-missing-directory", "stat-of-missing-path"]
+
+
 def run(ctx):
     res = Result()
     rng = ctx.rng
     now = int(time.time())
+    for backend in ("pathio", "async"):
+        res.cases += 1
+        res.count("wire_special_files_" + backend)
+        res.distinct.add(("wire-special", backend))
+        try:
+            fails = simnet.run(_special_session, backend)
+        except BaseException as e:  # noqa
+            res.disagreements.append({"correspondence": "C07 wire harness", "input": ["special-files", backend], "impl": "%s: %s" % (type(e).__name__, e)})
+            continue
+        if fails:
+            res.oracle_failures.append({"input": {"kind": "wire-special-files", "backend": backend}, "what": fails[0], "signature": "C07:wire:entry-type-differs-from-backend"})
+    # the same client object after a refused or failed request: what it learns afterwards is the same
+    for pi, prelude in enumerate(PRELUDES[1:]):
+        for backend in ("memory",):
+            mt = {"g.txt": now - 86400 * 3 - 37, "f.txt": now - 10**7 - 1, "e": now - 3601.5, "z.bin": float(now - 86400 * 200) + 0.75}
+            res.cases += 1
+            res.count("wire_prelude_" + prelude)
+            res.distinct.add(("wire-prelude", prelude))
+            try:
+                fails = simnet.run(_session, backend, True, HISTORIES[1 + pi % 3], mt, prelude)
+            except BaseException as e:  # noqa
+                res.disagreements.append({"correspondence": "C07 wire harness", "input": [backend, prelude], "impl": "%s: %s" % (type(e).__name__, e)})
+                continue
+            if fails:
+                res.oracle_failures.append({"input": {"kind": "wire-listing", "backend": backend, "mlsx": True, "history": 1 + pi % 3, "prelude": prelude}, "what": fails[0], "signature": "C07:wire:listing-differs-from-backend"})
     for backend in ("memory", "pathio"):
         for mlsx in (True, False):
             for hi, hist in enumerate(HISTORIES):
@@ -133,6 +239,14 @@ def run(ctx):
 
 
 def replay(inp):
-    fails = simnet.run(_session, inp["backend"], inp["mlsx"], HISTORIES[inp["history"]], {})
+    if inp.get("kind") == "wire-special-files":
+        fails = simnet.run(_special_session, inp["backend"])
+        print(fails)
+        return bool(fails)
+    mt = {}
+    if inp.get("prelude"):
+        now = int(time.time())
+        mt = {"g.txt": now - 86400 * 3 - 37, "f.txt": now - 10**7 - 1, "e": now - 3601.5, "z.bin": float(now - 86400 * 200) + 0.75}
+    fails = simnet.run(_session, inp["backend"], inp["mlsx"], HISTORIES[inp["history"]], mt, inp.get("prelude"))
     print(fails)
     return bool(fails)
